@@ -428,6 +428,11 @@ pub fn run(ctx: &mut Ctx) {
         // below a front matter a `>>` line is ordinary step text, also when it sits between the lines of a step
         "---\ntitle: Pancakes\n---\n\nMix the @flour{200%g} with the @milk{300%ml}\n>> tip: sift the flour first\nand whisk until smooth.\n\nFry in a #pan{} for ~{2%min}.\n",
         "---\ntitle: x\n---\nStep one\n>> not metadata\n>>\nstill step one @a{1}.\n\n>> alone: here\n\nLast.\n",
+        // decimals without integer part as timer values; a one-line paragraph that starts with a bracketed word and a colon;
+        // a number followed by a capitalised word that is no unit as written
+        "Whisk the @eggs{3} and let them rest ~{.05%h} or ~{.5%min} then ~x{.01%s}, add @y{.05%kg}.",
+        "Toast the @bread{2%slices} in a #pan{}.\n\n[Optional]: rub them with @garlic{1%clove} while still hot.\n\n[mode]: not a switch\n\nServe.\n",
+        "Knead as in step 1. In a bowl, let the dough rest 2 H or 3 M, then 4 S and 5 D of 6 G or 7 Min.",
         // numbers written with commas in plain step text
         "Fold the dough until it has about 1,000 layers, use 1,5 parts of water and 3,4 or 5 eggs at 37,5 degrees.",
         // a locked text value with blanks after the `=`; a brace-less component directly followed by `|word`
